@@ -6695,6 +6695,11 @@ def is_non_empty_tuple(t: Type) -> bool:
     return isinstance(t, TupleType) and bool(t.items)
 
 
+def is_fixed_length_tuple(t: Type) -> bool:
+    t = get_proper_type(t)
+    return isinstance(t, TupleType) and find_unpack_in_list(t.items) is None
+
+
 def is_duplicate_mapping(
     mapping: list[int], actual_types: list[Type], actual_kinds: list[ArgKind]
 ) -> bool:
@@ -6703,11 +6708,16 @@ def is_duplicate_mapping(
         # Multiple actuals can map to the same formal if they both come from
         # varargs (*args and **kwargs); in this case at runtime it is possible
         # that here are no duplicates. We need to allow this, as the convention
-        # f(..., *args, **kwargs) is common enough.
+        # f(..., *args, **kwargs) is common enough. A fixed-length tuple and
+        # a TypedDict have a known shape, so for them it is a real duplicate.
         and not (
             len(mapping) == 2
             and actual_kinds[mapping[0]] == nodes.ARG_STAR
             and actual_kinds[mapping[1]] == nodes.ARG_STAR2
+            and not (
+                is_fixed_length_tuple(actual_types[mapping[0]])
+                and isinstance(get_proper_type(actual_types[mapping[1]]), TypedDictType)
+            )
         )
         # Multiple actuals can map to the same formal if there are multiple
         # **kwargs which cannot be mapped with certainty (non-TypedDict
